@@ -61,7 +61,7 @@ LEVEL_TEXT = ("Machine-checked proof (Coq) about an executable model of Deficien
               "negative (rank S + l <= n proved from S = Y*Ia), and the linkage-class deficiencies never sum to more than it. The model is compared "
               "with the Python code (complex list, arcs, classes, all integers and flags, class deficiencies) on every run over an exhaustive small "
               "scope, random and textbook networks; numpy's float ranks are compared with the certified exact ranks per input.")
-LEVEL_NOTE = ("Universal: all thirteen model theorems and checker soundness. Per input: float ranks vs certified ranks; networkx component routines vs "
+LEVEL_NOTE = ("Universal: all fourteen model theorems and checker soundness. Per input: float ranks vs certified ranks; networkx component routines vs "
               "the model's closures; regularity and the deficiency-zero/one front ends. Trusted: Coq kernel, MathComp, model + encoders. "
               "networkx/numpy results are compared, not trusted.")
 TECHNIQUE = ("Coq proof about a Gallina model (stdlib lists: walk invariant, lib/Reach saturation; MathComp: rank of Y*Ia, kernel of the incidence "
